@@ -161,6 +161,8 @@ class SpecDB:
             return "err"
         if name in self.all_table_names():
             return "err"
+        if not self.has_validation and any(c["range"] or c["cat"] or c["enum"] or c.get("fk") for c in cols):
+            return "err"      # nowhere to record these attributes: refused rather than silently lost
         return "ok" if storable(name, cols) else "err"
 
     def predict_drop_table(self, name):
